@@ -84,6 +84,18 @@ func matrixJSON(m map[string]any, rng *rand.Rand) any {
 		al := []any{}
 		for _, a := range adjs {
 			am := asMap(a)
+			if am["isnull"] == true {
+				al = append(al, nil) // a null entry of the list: an adjustment without any dimension values
+				continue
+			}
+			if am["nowith"] == true {
+				ap := [][2]any{}
+				if sv, present := skipValue(am["skip"].(string), rng); present {
+					ap = append(ap, [2]any{"skip", sv})
+				}
+				al = append(al, orderedJSON(append(ap, [2]any{"soft_fail", true}))) // written without `with` at all
+				continue
+			}
 			with := asMap(am["with"])
 			var withJ any
 			if v, ok := with[""]; ok && len(with) == 1 && rng.Intn(2) == 0 {
@@ -296,6 +308,18 @@ func c11RandomCase(rng *rand.Rand) obj {
 			sk = "absent"
 		}
 		adjs = append(adjs, obj{"with": w, "skip": sk})
+	}
+	if len(dims) > 0 && rng.Intn(12) == 0 {
+		// an adjustment that names NO dimension: a null list entry, or an entry without `with` - malformed for any matrix
+		// that has dimensions, so every permutation is rejected
+		a := obj{"with": obj{}, "skip": skips[rng.Intn(len(skips))]}
+		if rng.Intn(2) == 0 {
+			a["isnull"] = true
+			a["skip"] = "absent"
+		} else {
+			a["nowith"] = true
+		}
+		adjs = append(adjs, a)
 	}
 	switch rng.Intn(10) {
 	case 0: // wrong arity
